@@ -28,7 +28,7 @@ ASSUMPTIONS = [
 ]
 
 
-def faults(n_octets: int, excluded_bits: set, rng, full: bool, packet: bytes = None):
+def faults(n_octets: int, excluded_bits: set, rng, full: bool, packet: bytes = None, light: bool = False):
     """Yield (xor mask as int over the whole packet, description)."""
     nbits = 8 * n_octets
     if packet is not None:
@@ -51,6 +51,8 @@ def faults(n_octets: int, excluded_bits: set, rng, full: bool, packet: bytes = N
         if pos in excluded_bits:
             continue
         yield 1 << (nbits - 1 - pos), ("flip", pos, 1)
+    if light:          # single-bit flips and value-dependent bursts only (used for the additional crafted packets of the quick tier)
+        return
     for L in range(2, 17):
         for pos in range(0, nbits - L + 1):
             if any((pos + k) in excluded_bits for k in range(L)):
@@ -83,7 +85,7 @@ def _region_pus(n, pos_bit, sec_len):
     return "payload"
 
 
-def k_pus(ctx, which, raw, ts_len=0, full=False, fault=None):
+def k_pus(ctx, which, raw, ts_len=0, full=False, fault=None, light=False):
     """Enumerate faults on one packed TC/TM.  fault=[mask_hex] replays one fault."""
     from spacepackets.ecss import check_pus_crc
     from spacepackets.ecss.tc import PusTc
@@ -98,7 +100,7 @@ def k_pus(ctx, which, raw, ts_len=0, full=False, fault=None):
     excluded = set(range(32, 48))
     sec_len = 5 if which == "tc" else 7 + ts_len
     doc = documented_errors()
-    it = [(int(fault, 16), ("replay", 8 * n - int(fault, 16).bit_length(), 0))] if fault else faults(n, excluded, ctx.rng, full, p)
+    it = [(int(fault, 16), ("replay", 8 * n - int(fault, 16).bit_length(), 0))] if fault else faults(n, excluded, ctx.rng, full, p, light)
     cnt = 0
     for mask, (ftype, pos, L) in it:
         cnt += 1
@@ -124,7 +126,7 @@ def k_pus(ctx, which, raw, ts_len=0, full=False, fault=None):
     ctx.table("packets_fully_enumerated", which)
 
 
-def k_pdu(ctx, kind, cfg, p, full=False, fault=None, decoder=None):
+def k_pdu(ctx, kind, cfg, p, full=False, fault=None, decoder=None, light=False):
     X = C.lib()
     raw = C.ref_octets(kind, cfg, p)
     base = {"k": "pdu", "kind": kind, "cfg": cfg, "p": p}
@@ -141,7 +143,7 @@ def k_pdu(ctx, kind, cfg, p, full=False, fault=None, decoder=None):
     hl = R.header_len(cfg["idw"], cfg["seqw"])
     excluded = set(range(8, 32)) | {6}
     doc = documented_errors()
-    it = [(int(fault, 16), ("replay", 8 * n - int(fault, 16).bit_length(), 0))] if fault else faults(n, excluded, ctx.rng, full, raw)
+    it = [(int(fault, 16), ("replay", 8 * n - int(fault, 16).bit_length(), 0))] if fault else faults(n, excluded, ctx.rng, full, raw, light)
     cnt = 0
     for mask, (ftype, pos, L) in it:
         cnt += 1
@@ -181,10 +183,15 @@ def k_trailer_after_setters(ctx, which, seed):
         t = c02.build(r.choice(c02.ROUTES), r.getrandbits(11), r.getrandbits(14), r.getrandbits(8), r.getrandbits(8), r.getrandbits(16), r.getrandbits(4), r.randbytes(r.randrange(0, 30)))
         steps = []
         for i in range(r.randrange(1, 7)):
-            op = r.choice(("pack", "calc_crc", "apid", "seq_count", "source_id", "app_data_same_len", "app_data", "to_space_packet", "unpack_own"))
+            op = r.choice(("pack", "calc_crc", "apid", "seq_count", "source_id", "app_data_same_len", "app_data", "to_space_packet", "unpack_own", "poison", "calc_crc_pack_cached"))
             steps.append(op)
             if op == "pack":
                 emit(i, op, t.pack())
+            elif op == "poison":
+                c02.poison_tc(r)
+            elif op == "calc_crc_pack_cached":
+                t.calc_crc()
+                emit(i, op, t.pack(recalc_crc=False))
             elif op == "calc_crc":
                 t.calc_crc()
             elif op == "apid":
@@ -209,10 +216,15 @@ def k_trailer_after_setters(ctx, which, seed):
                       r.getrandbits(4), r.getrandbits(3), ts, r.randbytes(r.randrange(0, 30)))
         steps = []
         for i in range(r.randrange(1, 7)):
-            op = r.choice(("pack", "calc_crc", "apid", "seq_count", "tm_data", "to_space_packet", "unpack_own"))
+            op = r.choice(("pack", "calc_crc", "apid", "seq_count", "tm_data", "to_space_packet", "unpack_own", "poison", "calc_crc_pack_cached"))
             steps.append(op)
             if op == "pack":
                 emit(i, op, t.pack())
+            elif op == "poison":
+                c03.poison_tm(r)
+            elif op == "calc_crc_pack_cached":
+                t.calc_crc()
+                emit(i, op, t.pack(recalc_crc=False))
             elif op == "calc_crc":
                 t.calc_crc()
             elif op == "apid":
@@ -231,7 +243,7 @@ def k_trailer_after_setters(ctx, which, seed):
         raise AssertionError(which)
     for i, op, p in produced:
         ctx.table("trailer_after_setters/producing_op", f"{which}:{op}")
-        prev = [s_ for s_ in steps[:i] if s_ not in ("pack", "to_space_packet")]
+        prev = [s_ for s_ in steps[:i] if s_ not in ("pack", "to_space_packet", "calc_crc_pack_cached")]
         how = op if op != "final_pack" else "pack"
         if not ctx.check("trailer_is_crc", crc16(p[:-2]).to_bytes(2, "big") == p[-2:] and check_pus_crc(p) is True, "packed_trailer_wrong",
                          f"{which}/{how}" + ("/after_changes" if prev else ""), case, steps=steps, at_step=i, observed=p):
@@ -352,6 +364,36 @@ def run(ctx):
                 k_pdu(ctx, kind, cfg, p, full=full)
     for s in range(ctx.n(600, 30_000)):
         k_trailer_after_setters(ctx, "tc" if s & 1 else "tm", ctx.seed * 1_000_003 + ctx.shard[0] * 100_003 + s)
+    # packets whose running CRC is exactly 0x0000 / 0xFFFF at a structural boundary (after a header, after the offset field)
+    for target in (0x0000, 0xFFFF):
+        for where in ("primary", "secondary"):
+            f = c02.craft_tc_crc_boundary(r, where, target, 3)
+            if f is not None:
+                ctx.table("crc_register_at_boundary", f"tc/{where}/{target:04x}")
+                k_pus(ctx, "tc", P.tc(f[0], f[1], f[2], f[3], f[4], f[5], r.randbytes(3)).hex(), full=False, light=ctx.quick)
+                t = c02.build("ctor", f[0], f[1], f[2], f[3], f[4], f[5], b"abc")
+                for name, octets in (("pack", t.pack()), ("to_space_packet", t.to_space_packet().pack()), ("calc_crc+pack", (t.calc_crc(), t.pack(recalc_crc=False))[1])):
+                    ctx.check("trailer_is_crc", crc16(bytes(octets)[:-2]).to_bytes(2, "big") == bytes(octets)[-2:], "packed_trailer_wrong", f"tc/{name}/crc_register_{target:04x}_after_{where}_header",
+                              {"k": "note", "fields": list(f)}, observed=bytes(octets))
+            ts = r.randbytes(7)
+            g = c03.craft_tm_crc_boundary(r, where, target, ts, 3)
+            if g is not None:
+                ctx.table("crc_register_at_boundary", f"tm/{where}/{target:04x}")
+                k_pus(ctx, "tm", P.tm(g[0], g[1], g[2], g[3], g[4], g[5], g[6], ts, r.randbytes(3), version=0).hex(), ts_len=7, full=False, light=ctx.quick)
+                t = c03.build("ctor", g[0], g[1], g[2], g[3], g[4], g[5], g[6], 0, ts, b"abc")
+                for name, octets in (("pack", t.pack()), ("to_space_packet", t.to_space_packet().pack()), ("calc_crc+pack", (t.calc_crc(), t.pack(recalc_crc=False))[1])):
+                    ctx.check("trailer_is_crc", crc16(bytes(octets)[:-2]).to_bytes(2, "big") == bytes(octets)[-2:], "packed_trailer_wrong", f"tm/{name}/crc_register_{target:04x}_after_{where}_header",
+                              {"k": "note", "fields": list(g)}, observed=bytes(octets))
+        for kind in C.KINDS8:
+            for where in ("header", "offset"):
+                cfg = C.rand_cfg(r, crc=1, segctrl=(kind == "file_data"), seqw=r.choice((2, 4, 8)))
+                p = C.rand_params(r, kind, cfg, rich=False)
+                if kind == "file_data":
+                    p["data"] = p["data"][:24]
+                got = C.craft_crc_boundary(kind, cfg, p, where, target)
+                if got is not None:
+                    ctx.table("crc_register_at_boundary", f"{kind}/{where}/{target:04x}")
+                    k_pdu(ctx, kind, got[0], got[1], full=False, light=ctx.quick)
     from spverif.core.util import block_boundary_sizes
     for large in (0, 1):
         cfg = C.rand_cfg(r, crc=1, large=large, segctrl=0)
